@@ -23,6 +23,10 @@ BUILT = {
    "bounded exhaustive enumeration of all labelled ordered trees x all nodes x all traversal entry points on the real code, compared with lists computed on an abstract tree",
    "All trees up to the node bound (documents, fragment forests, unattached trees, detached attribute/namespace nodes) x every node x every traversal API and Axis value are executed on the real xot code and compared with the abstract tree's document-order lists; complete inside the bound, plus four large instances (chain/fan/attributes/comb).",
    "Trusts: tree construction through the creation API; the 150-line flat-tree reference. Bounded: <= 5 (quick) / 6-8 (thorough) ordinary nodes; fixed label alphabet."),
+ "C08": ("model_checking", "xotmc/E-BFS+line",
+   "explicit-state BFS over registration histories on the real Xot with a mirror of the three interning tables, plus a line of 70000 states per id kind crossing every id width",
+   "Every history up to the depth bound over add_name / add_name_ns / add_namespace / add_prefix (8 strings), parse of 4 documents, html5(), Xot::clone: same id iff same string, ids resolve to their strings in every later state and in clones, lookups find exactly what is registered, built-ins distinct and standard. The boundary line registers 70000 distinct strings per kind (and 66000 element names through parse) checking distinctness and stability at every n.",
+   "States of the line with equal n are symmetric (the tables are data-independent)."),
  "C09": ("exploration", "xotmc/E-TREE",
    "bounded exhaustive enumeration of namespace declaration layouts x nodes x prefixes x namespaces, compared with a nearest-declaration-wins resolver",
    "Every layout of 1-3 elements (540 declaration/name/attribute specs per element; reduced menu for the third element) attached and unattached: namespaces_in_scope, namespace_for_prefix, prefix_for_namespace, unresolved_namespaces, inherited_prefixes, full_name, name_ref, node_name_ref at every node against the NsScope model.",
@@ -31,6 +35,14 @@ BUILT = {
    "exhaustive enumeration of namespace layouts in four placements plus explicit-state BFS over add/move/clone/repair histories on the real code; names of the output resolved by an independent XML reader",
    "Every layout of 1-3 elements without any serialisability filter (document, unattached element, in-place subtree, fragment), single detached nodes and element-less fragments: to_string is Err or text whose names, resolved by XmlRead, are the tree's expanded names; after create_missing_prefixes the tree serialises, reparses equal modulo declarations, nothing but declarations changed and none was overridden. Histories up to depth 3/4 alternate adding / moving / cloning nodes in four namespaces with create_missing_prefixes.",
    "Trusts XmlRead (400 lines, self-tested). Trees whose own declarations contradict their element names (no-namespace element declaring a default namespace) cannot be written in XML and are outside the repair clause."),
+ "C11": ("model_checking", "xotmc/E-BFS",
+   "explicit-state BFS over map-style and node-style updates on the real element, lock-step with an ordered reference map; every accessor of both views compared after every step",
+   "All histories up to depth 4/5 from 9 starts over 62 operations (insert, remove, get_mut, the entry API, clear, set_/remove_ wrappers, append_*_node / any_append with fresh and foreign nodes, detach / remove of nodes) on attributes and namespaces: len, is_empty, contains_key, get, get_node, iter, keys, values, nodes, to_vec, to_hashmap of the read-only and the mutable view, return values, node identity and serialisation order agree with the reference.",
+   "3 keys x 2 values per map."),
+ "C12": ("model_checking", "xotmc/E-TREE+E-BFS",
+   "exhaustive enumeration of clone sources (every node of every small tree, both consolidation modes) followed by every mutation confined to one side; clone_with_prefixes on every element of every namespace layout; Xot::clone of the BFS starts with every operation on either store",
+   "clone_node: unattached, equal to the source, new handles only, source untouched, later mutations of one side never change the other; clone_with_prefixes: serialises whenever the source did in place, same names, own declarations kept; Xot::clone: handles denote equal nodes, stores independent.",
+   "Mutation depth 1 after the clone; sources up to 4/5 ordinary nodes."),
  "C13": ("exploration", "xotmc/E-TREE pairs",
    "exhaustive enumeration of all ordered pairs (and triples of a subset) of small subtrees covering every single-feature difference; predicates compared with independently computed canonical forms",
    "All ordered pairs of ~1000 (quick) / ~5000 (thorough) subtrees x deep_equal, deep_equal_children, deep_equal_xpath, advanced_deep_equal (4 filters x 3 comparisons), shallow_equal, shallow_equal_ignore_attributes (all 40 ignore lists incl. repeats), string_value; transitivity on all triples of a subset.",
